@@ -57,7 +57,7 @@ func Hammer(o HammerOpts, label string, rng *rand.Rand) (*core.Trace, error) {
 	add(map[string]any{"e": "reset", "mode": o.Mode, "license": o.Lic})
 
 	// sequential prologue: everybody connects (fully compared)
-	ender := w.names[rng.Intn(len(w.names))]
+	ender := w.names[rng.Intn(2)] // (c3 may be the fixed watcher)
 	for _, n := range w.names {
 		c := f.bs[homeOf(o.NB, n)].Attach()
 		w.clients[n] = c
@@ -83,8 +83,39 @@ func Hammer(o HammerOpts, label string, rng *rand.Rand) (*core.Trace, error) {
 		add(cev)
 	}
 
+	fixedWatch := !o.Watch
+	if fixedWatch {
+		// a watcher whose own watch never changes: c3 asks for presence changes on the first level of the first filter
+		// before the concurrent phase and does nothing else during it; every notification it is owed is checked
+		wch := o.Filters[0][:1]
+		req, _ := json.Marshal(map[string]any{"key": w.key("kAll"), "channel": w.ch(wch, "ok"), "status": false, "changes": true})
+		w.clients["c3"].Send(&mqtt.Publish{Header: mqtt.Header{QOS: 1}, MessageID: 9, Topic: []byte("emitter/presence/"), Payload: req})
+		out, err := w.collect("c3", "")
+		if err != nil {
+			return nil, err
+		}
+		pev := map[string]any{"e": "presence", "c": "c3", "k": "kAll", "w": wch, "syn": "ok", "status": false, "chg": "on", "out": out, "tcount": 1}
+		if f.multi() {
+			pev["routes"] = f.routes(b.Lic.Contract())
+		}
+		add(pev)
+	}
+	concDone := func() error {
+		out, err := w.collect("", "")
+		if err != nil {
+			return err
+		}
+		if fixedWatch {
+			got := map[string]any{}
+			for n, r := range out {
+				got[n] = r.A
+			}
+			add(map[string]any{"e": "concdone", "got": got})
+		}
+		return nil
+	}
 	if o.Pairs {
-		if err := w.pairRounds(o, rng, add); err != nil {
+		if err := w.pairRounds(o, rng, add, concDone); err != nil {
 			return nil, err
 		}
 	}
@@ -94,6 +125,9 @@ func Hammer(o HammerOpts, label string, rng *rand.Rand) (*core.Trace, error) {
 	var wg sync.WaitGroup
 	errs := make(chan error, len(w.names))
 	for ci, n := range w.names {
+		if fixedWatch && n == "c3" {
+			continue
+		}
 		wg.Add(1)
 		go func(ci int, n string) {
 			defer wg.Done()
@@ -191,8 +225,9 @@ func Hammer(o HammerOpts, label string, rng *rand.Rand) (*core.Trace, error) {
 		add(ev)
 		return nil
 	}
-	// drain what the concurrent phase left in the inboxes (deliveries and notifications are not compared there)
-	if _, err := w.collect("", ""); err != nil {
+	// drain what the concurrent phase left in the inboxes (deliveries are not compared there; the notifications owed to
+	// a fixed watcher are)
+	if err := concDone(); err != nil {
 		return nil, err
 	}
 	var open []string
@@ -242,7 +277,7 @@ func Hammer(o HammerOpts, label string, rng *rand.Rand) (*core.Trace, error) {
 // presence watch on or off, on the same channel or on a channel below it), both wait for their acknowledgements, and a
 // probe publish by one of them - compared completely - shows who holds what.  This is where handlers of different
 // connections race on one branch of the index (e.g. one connection subscribing to a branch the other is pruning).
-func (w *world) pairRounds(o HammerOpts, rng *rand.Rand, add func(map[string]any)) error {
+func (w *world) pairRounds(o HammerOpts, rng *rand.Rand, add func(map[string]any), concDone func() error) error {
 	mid := uint16(10000)
 	build := func(n string, op string, fl []string) (mqtt.Message, map[string]any) {
 		mid++
@@ -274,8 +309,12 @@ func (w *world) pairRounds(o HammerOpts, rng *rand.Rand, add func(map[string]any
 	}
 	fkey := func(f []string) string { return fmt.Sprint(f) }
 	for r := 0; r < o.Rounds; r++ {
-		i := rng.Intn(len(w.names))
-		a, b := w.names[i], w.names[(i+1+rng.Intn(len(w.names)-1))%len(w.names)]
+		pool := w.names
+		if !o.Watch {
+			pool = w.names[:2] // c3 is the fixed watcher: it only listens
+		}
+		i := rng.Intn(len(pool))
+		a, b := pool[i], pool[(i+1+rng.Intn(len(pool)-1))%len(pool)]
 		fa := o.Filters[rng.Intn(len(o.Filters))]
 		fb := fa
 		if rng.Intn(3) == 0 {
@@ -350,8 +389,9 @@ func (w *world) pairRounds(o HammerOpts, rng *rand.Rand, add func(map[string]any
 		}
 		add(ea)
 		add(eb)
-		// probe: drain, then one fully compared publish on the concrete channel of the round
-		if _, err := w.collect("", ""); err != nil {
+		// probe: drain (notifications owed to fixed watchers are compared), then one fully compared publish on the
+		// concrete channel of the round
+		if err := concDone(); err != nil {
 			return err
 		}
 		probe := fa
